@@ -764,16 +764,27 @@ def tensor_sample_specs(rs, sizes_pool, reps=1):
     return out
 
 
-def gaussian_sample_specs(rs, sig):
+def sub_rs(seed, idx):
+    return np.random.RandomState((int(seed) * 7919 + 104729 * int(idx) + 17) % 4294967291)
+
+
+def gaussian_sample_specs(seed, sig, keep=lambda idx: True):
+    """(label, fragment); generation is per (subset, rank) combination with its own random state, combinations
+    rejected by `keep` are not generated"""
     reals = [(n, tuple(s)) for n, k, s in sig if k == "real"]
     dimof = lambda sub: sum(prod(s) for _, s in sub)
     dim = dimof(reals)
     out = []
+    idx = -1
     for B in subsets(reals):
         dB = dimof(B)
         for rank in sorted({r for r in rank_set(dim) if r >= dB and r <= 2 * dim}):
             if len(B) == len(reals) and rank < dim:
                 continue
+            idx += 1
+            if not keep(idx):
+                continue
+            rs = sub_rs(seed, idx)
             leaf = gen_leaf(rs, sig, rank, blocks=True)
             for mode in ([], [["s", 2]], [["s", 3], ["t", 2]], "reparam"):
                 ml = mode if mode == "reparam" else "bint%d" % len(mode)
